@@ -36,7 +36,12 @@ ASSUMPTIONS = [
 DELIMS = [(" ", r"\s+"), ("\t", r"\s+"), ("  \t ", r"\s+"), (",", ","), ("\t", "\t"),
           (";", ";")]
 LABEL_CHARS = list("abcXYZ019_-:()/#,;.'\"!?*") + ["é", "ß", "日", "本", "♯", "𝄞", "λ", "ё",
-                                                    " ", "  ", "\t"]
+                                                    " ", "  ", "\t",
+                                                    # separators that str.splitlines()
+                                                    # breaks at but file iteration
+                                                    # does not
+                                                    "\x0b", "\x0c", "\x1c", "\x1e",
+                                                    "\x85", "\u2028", "\u2029"]
 
 
 def plan(tier, seed):
@@ -330,9 +335,10 @@ def check_fault(ctx, mods, r, f, scratch, k):
         del rows[i][r.randrange(len(rows[i]) - (1 if fmt in ("labeled_events",
                                                              "labeled_intervals") else 0))]
         lab = rows[i][-1]
+        import re as _re
         if fmt in ("labeled_events", "labeled_intervals") and (
-                " " in lab or "\t" in lab or (f["sep"].strip() and
-                                              f["sep"].strip() in lab)):
+                _re.search(r"\s", lab) or (f["sep"].strip() and
+                                           f["sep"].strip() in lab)):
             return  # the label's own separators refill the columns: not a fault
         if f["sep"].join(rows[i]).startswith("#"):
             return  # the remaining text is a comment line: not a fault
